@@ -49,10 +49,10 @@ def gen_yield(rng):
     return rng.randint(1, 48) / 8.0
 
 
-def gen_one(rng, tier):
+def gen_one(rng, tier, scale=False):
     big = tier == 'thorough' and rng.random() < 0.5
-    nframes = rng.randint(3, 60 if big else 30)
-    nc = rng.randint(1, 8 if big else 6)
+    nframes = rng.randint(3, 60 if big else 30) if not scale else 250
+    nc = rng.randint(1, 8 if big else 6) if not scale else 120
     style = rng.random()
     if style < 0.12:
         # near misses: the accumulated dt falls short of / passes a deadline
@@ -69,7 +69,8 @@ def gen_one(rng, tier):
     coros = []
     for c in range(nc):
         script = []
-        for _ in range(rng.randint(0, 8)):
+        for _ in range(rng.randint(0, 8) if not scale
+                       else rng.randint(5, 40)):
             y = gen_yield(rng)
             if rng.random() < 0.05 and nc > 1:
                 script.append({'spawn': rng.randrange(nc), 'y': y})
@@ -84,6 +85,9 @@ def gen_one(rng, tier):
 
 
 def gen_cases(tier, seed):
+    for i in range(2 if tier == 'quick' else 32):
+        yield gen_one(random.Random(f'C08/scale/{seed}/{tier}/{i}'), tier,
+                      scale=True)
     n = 3000 if tier == 'quick' else 16 * 20000
     for i in range(n):
         yield gen_one(random.Random(f'C08/{seed}/{tier}/{i}'), tier)
